@@ -24,11 +24,13 @@
 #include "config.h"
 
 #include <map>
+#include <sys/stat.h>
 
 #include "common/session.h"
 #include "common/wirepeer.h"
 #include "data/chunk_list.h"
 #include "protocol/extensions.h"
+#include "torrent/data/file_list.h"
 #include "protocol/peer_connection_base.h"
 #include "protocol/request_list.h"
 #include "torrent/data/block_transfer.h"
@@ -101,14 +103,51 @@ static bool connect_healthy(Session& S, RoleCtx& rc) {
   return true;
 }
 
-static RoleCtx& get_role(Session& S, const std::string& role, uint32_t np) {
-  auto it = g_roles.find(role);
-  if (it != g_roles.end()) return it->second;
-  RoleCtx& rc = g_roles[role];
+static uint32_t g_torrent_no = 0;
+
+// A magnet-style metadata download: { info: { meta_download: 1, name, pieces: <info hash> } }, the object
+// DownloadConstructor::parse_magnet_uri builds. Connections are PeerConnectionMetadata.
+static void make_meta(Session& S, RoleCtx& rc) {
+  g_torrent_no++;
+  auto t = std::make_unique<Torrent>();
+  t->spec.name = "c03_meta_" + std::to_string(g_torrent_no);
+  std::string hash(20, '\0');
+  for (int i = 0; i < 20; i++) hash[i] = (char)content_byte(7000 + g_torrent_no, i);
+  t->info_hash = hash;
+  std::string name = t->spec.name + ".meta";
+  std::string tfile = "d4:infod13:meta_downloadi1e4:name" + std::to_string(name.size()) + ":" + name + "6:pieces20:" + hash + "ee";
+  t->dl = S.add_raw(tfile);
+  t->root = S.scratch() + "/" + t->spec.name;
+  ::mkdir(t->root.c_str(), 0755);
+  t->dl.file_list()->set_root_dir(t->root);
+  t->dl.open(0);
+  t->dl.hash_check(false);
+  torrent::Download d = t->dl;
+  if (!S.settle([d]() { return d.is_hash_checked(); }, 30000)) throw std::runtime_error("meta hash check did not complete");
+  t->dl.set_connection_type(torrent::Download::CONNECTION_LEECH);   // meta download: installs the metadata factory
+  rc.T = t.get();
+  S.m_torrents.push_back(std::move(t));
+  S.start(rc.T);
+  // healthy peer: extension capable, advertises ut_metadata in the handshake phase
+  rc.healthy = std::make_unique<WirePeer>();
+  WirePeer& H = *rc.healthy;
+  std::string ip = "127.0.1." + std::to_string(2 + (rc.healthy_reconnects++ % 200));
+  if (!H.connect_to(S.listen_port(), ip.c_str())) throw std::runtime_error("healthy meta peer could not connect");
+  H.send_bytes(WirePeer::handshake(rc.T->info_hash, peer_id(800000 + g_torrent_no), WirePeer::reserved_ext()) +
+               WirePeer::extended(0, "d1:md11:ut_metadatai3eee") + WirePeer::keepalive());
+  pump(S, {&H});
+  HandshakeIn hs;
+  if (!H.take_handshake(hs)) throw std::runtime_error("healthy meta peer: no handshake");
+  drop_messages(H);
+}
+
+static void make_role(Session& S, RoleCtx& rc, const std::string& role, uint32_t np) {
+  if (role == "meta") { make_meta(S, rc); return; }
   TorrentSpec spec;
-  spec.name = "c03_" + role;
+  g_torrent_no++;
+  spec.name = "c03_" + role + "_" + std::to_string(g_torrent_no);
   spec.piece_length = 16384;
-  spec.content_seed = 30 + (uint32_t)g_roles.size();
+  spec.content_seed = 30 + g_torrent_no;
   spec.files = {{"a.bin", 40000}, {"d/b.bin", (uint64_t)(np - 1) * 16384 + 5000 - 40000}};
   if (role == "leech") spec.corrupt_pieces = {2, 5};
   rc.T = S.add_torrent(spec);
@@ -116,6 +155,13 @@ static RoleCtx& get_role(Session& S, const std::string& role, uint32_t np) {
   if (role == "iseed") S.set_conn_type(rc.T, 2);
   S.start(rc.T);
   if (!connect_healthy(S, rc)) throw std::runtime_error("healthy peer could not connect");
+}
+
+static RoleCtx& get_role(Session& S, const std::string& role, uint32_t np) {
+  auto it = g_roles.find(role);
+  if (it != g_roles.end()) return it->second;
+  RoleCtx& rc = g_roles[role];
+  make_role(S, rc, role, np);
   return rc;
 }
 
@@ -200,13 +246,15 @@ static std::string run_one(Session& S, RoleCtx& rc, std::map<std::string, std::s
   Torrent* T = rc.T;
   const std::string stream = unhex(kv["stream"]), ho = unhex(kv["ho"]);
   // healthy peers of every torrent say something (the library drops peers silent for 240 s of virtual time)
+  if (rc.healthy && rc.healthy->fd != -1) rc.healthy->send_bytes(WirePeer::keepalive());
   for (auto& kvp : g_roles)
     if (kvp.second.healthy && kvp.second.healthy->fd != -1) kvp.second.healthy->send_bytes(WirePeer::keepalive());
   S.step();
   S.avoid_tick_within(30 * 1000000ll);
   WirePeer P;
-  if (!connect_hostile(S, P)) return "ERR:connect";
-  std::string hello = WirePeer::handshake(T->info_hash, peer_id(g_conn_no));
+  if (!connect_hostile(S, P, rc.T, rc.healthy.get())) return "ERR:connect";
+  const bool meta = kv["role"] == "meta";
+  std::string hello = WirePeer::handshake(T->info_hash, peer_id(g_conn_no), meta ? WirePeer::reserved_ext() : std::string(8, '\0'));
   if (kv["bits"] != "-") hello += WirePeer::bitfield(kv["bits"]);
   else if (ho.empty()) hello += WirePeer::keepalive();
   hello += ho;
@@ -256,8 +304,14 @@ static std::string run_one(Session& S, RoleCtx& rc, std::map<std::string, std::s
 }
 
 static std::string run_exact(Session& S, std::map<std::string, std::string>& kv) {
-  RoleCtx& rc = get_role(S, kv["role"], std::stoul(kv["np"]));
-  std::string out, out2;
+  // Initial seeding keeps per-torrent state about WHICH PEERS have announced which chunk (a chunk seen on
+  // two different peers is "done" and requests for it are dropped): deliveries from successive fresh peers on
+  // one torrent are not independent. Every initial-seed delivery therefore gets its own torrent and its own
+  // healthy peer; the other roles share one torrent per role.
+  const bool per_delivery = kv["role"] == "iseed";
+  uint32_t np = std::stoul(kv["np"]);
+  RoleCtx* shared = per_delivery ? nullptr : &get_role(S, kv["role"], np);
+  std::string out, out2, healthy = "OK";
   const std::string& segs = kv["segs"];
   size_t p = 0;
   while (p <= segs.size()) {
@@ -275,14 +329,26 @@ static std::string run_exact(Session& S, std::map<std::string, std::string>& kv)
       if (b == std::string::npos) break;
       a = b + 1;
     }
-    std::string d2;
-    std::string d1 = run_one(S, rc, kv, sg, d2);
+    std::string d1, d2;
+    if (per_delivery) {
+      RoleCtx rc;
+      make_role(S, rc, kv["role"], np);
+      d1 = run_one(S, rc, kv, sg, d2);
+      std::string hc = healthy_check(S, rc, true);
+      if (hc != "OK") healthy = hc;
+      rc.healthy->close_all();
+      pump(S, {});
+      S.remove(rc.T);
+    } else {
+      d1 = run_one(S, *shared, kv, sg, d2);
+    }
     out += (out.empty() ? "" : " / ") + d1;
     out2 += (out2.empty() ? "" : " / ") + d2;
     if (q == std::string::npos) break;
     p = q + 1;
   }
-  return out + " || " + out2 + " ;; healthy=" + healthy_check(S, rc, kv["role"] == "iseed");
+  if (!per_delivery) healthy = healthy_check(S, *shared, kv["role"] == "meta");
+  return out + " || " + out2 + " ;; healthy=" + healthy;
 }
 
 // ------------------------------------------------------------------------------------------
